@@ -17,10 +17,12 @@ int nondet_int(void);
 size_t nondet_size(void);
 
 #include "version_set.c"
+ldb_versions_t nondet_versions(void); ldb_version_t nondet_version(void); ldb_dbopt_t nondet_dbopt(void);
 
 #define NF 3                      /* bound on the number of files of the level / of the overlapping set */
 #define M_PICK 0
 #define M_RANGE 1
+#define M_SCAN 2                  /* ver.pick.any: pick_compaction with a level of any length (oracle comparator)       */
 #define ST_EMPTY 0                /* inputs[0]: freshly initialised                                        */
 #define ST_SINGLE 1               /* inputs[0] = { the picked file }                                        */
 #define ST_L0_CLOSURE 2           /* inputs[0] = get_overlapping_inputs(current, 0, range(picked file))      */
@@ -31,8 +33,8 @@ ldb_versions_t *g_vs; ldb_version_t *g_cur; ldb_compaction_t *g_c;
 static ldb_dbopt_t g_opts;
 static ldb_filemeta_t g_f[NF];    /* the files of the level (pick) / the overlapping files (range), in order */
 static ldb_filemeta_t g_seekf;    /* the seek-triggered candidate                                            */
-static void *g_items[NF];         /* backing store of the level's file list / of the temporary set          */
-static void *g_slot[1];           /* backing store of inputs[0] in ver.pick                                  */
+void *g_items[NF];                /* backing store of the level's file list / of the temporary set          */
+void *g_slot[1];                  /* backing store of inputs[0] in ver.pick                                  */
 int g_mode, g_refs0, g_exp_level;
 unsigned g_mallocs, g_setup_calls, g_edit_inits, g_range_calls, g_ov_calls, g_resizes, g_swaps, g_tmp_clears;
 int g_in0;                        /* state of inputs[0], see ST_*                                           */
@@ -42,6 +44,11 @@ ldb_vector_t *g_tmp;              /* ver.range: the function's temporary vector 
 size_t g_n, g_exp_len;            /* ver.range: size of the overlapping set / of the set that must be used  */
 const ldb_ikey_t *g_begin, *g_end;
 ldb_edit_t *g_edit_obj;
+/* ver.pick.any */
+void **g_lvl_items;               /* the level's file list (any length g_n)                                   */
+size_t g_calls;                   /* number of comparisons made = index of the next file to be asked         */
+int g_any_pos;                    /* the oracle has answered 'after the compact pointer' once               */
+size_t g_j;                       /* ghost index into level_ptrs (loop invariant of ldb_compaction_init)      */
 
 /* ---- carriers ----------------------------------------------------------------------------------------- */
 /* ver.pick: the range of the picked file (tags the slices) */
@@ -96,7 +103,7 @@ __CPROVER_ensures(g_setup_calls == 1)
 
 /* ---- plain models (other translation units) ------------------------------------------------------------ */
 void *ldb_malloc(size_t size) {
-  void *p = malloc(size);
+  ldb_compaction_t *p = malloc(sizeof(ldb_compaction_t));   /* typed object: a byte array of symbolic-looking size is bit-blasted bytewise */
   __CPROVER_assume(p != NULL);
   __CPROVER_assert(size == sizeof(ldb_compaction_t), "the only allocation is the compaction object");
   g_c = p; g_mallocs++;
@@ -120,7 +127,7 @@ void ldb_vector_init(ldb_vector_t *z) {
   z->length = 0;
 }
 void ldb_vector_push(ldb_vector_t *z, const void *x) {
-  __CPROVER_assert(g_mode == M_PICK && g_c != NULL && z == &g_c->inputs[0], "only inputs[0] of the new compaction is filled by hand");
+  __CPROVER_assert(g_mode != M_RANGE && g_c != NULL && z == &g_c->inputs[0], "only inputs[0] of the new compaction is filled by hand");
   __CPROVER_assert(g_in0 == ST_EMPTY && z->length == 0, "exactly one file is picked");
   g_slot[0] = (void *)x; z->items = g_slot; z->alloc = 1; z->length = 1;
   g_in0 = ST_SINGLE;
@@ -155,14 +162,33 @@ static int pk_compare(const ldb_comparator_t *cmp, const ldb_slice_t *x, const l
   return (x == cp) ? -r : r;
 }
 
+/* oracle comparator (ver.pick.any): answers arbitrarily; insists on being asked about the files of the level in order, one
+   question per file; the first file it calls 'after the compact pointer' becomes the file that must be picked */
+static int pk_oracle(const ldb_comparator_t *cmp, const ldb_slice_t *x, const ldb_slice_t *y) {
+  const ldb_slice_t *cp = &g_vs->compact_pointer[g_exp_level];
+  const ldb_slice_t *k = (y == cp) ? x : y;   /* (the file objects are arbitrary pointers here: decide by position) */
+  int r = nondet_int();
+  __CPROVER_assume(r > -2147483647 - 1);
+  __CPROVER_assert(cmp == &g_vs->icmp, "keys are ordered by the version set's internal key comparator");
+  __CPROVER_assert(x == cp || y == cp, "a file key is compared with the compact pointer of the compaction's level");
+  __CPROVER_assert(g_calls < g_n && k == &((ldb_filemeta_t *)g_lvl_items[g_calls])->largest,
+                   "the files of the level are examined in order, each once, by their LARGEST key");
+  if (r > 0 && !g_any_pos) { g_any_pos = 1; g_exp_file = g_lvl_items[g_calls]; }
+  g_calls++;
+  return (y == cp) ? r : -r;
+}
+
 static void mk_world(int mode) {
-  ldb_versions_t *vs = malloc(sizeof(*vs));
-  ldb_version_t *cur = malloc(sizeof(*cur));
-  __CPROVER_assume(vs != NULL && cur != NULL);
+  /* static objects (not malloc): their addresses are constants, so the call through vset->icmp.compare resolves to the one
+     comparator model instead of a dispatch over every address-taken function of version_set.c */
+  static ldb_versions_t vs_obj; static ldb_version_t cur_obj;
+  ldb_versions_t *vs = &vs_obj;
+  ldb_version_t *cur = &cur_obj;
+  vs_obj = nondet_versions(); cur_obj = nondet_version(); g_opts = nondet_dbopt();   /* arbitrary content, with or without dfcc */
   g_vs = vs; g_cur = cur; g_c = NULL; g_tmp = NULL; g_edit_obj = NULL; g_mode = mode;
-  vs->current = cur; vs->options = &g_opts; vs->icmp.compare = pk_compare; cur->vset = vs;
+  vs->current = cur; vs->options = &g_opts; vs->icmp.compare = (mode == M_SCAN) ? pk_oracle : pk_compare; cur->vset = vs;
   g_mallocs = g_setup_calls = g_edit_inits = g_range_calls = g_ov_calls = g_resizes = g_swaps = g_tmp_clears = 0;
-  g_in0 = ST_EMPTY;
+  g_in0 = ST_EMPTY; g_calls = 0; g_any_pos = 0; g_n = 0; g_lvl_items = NULL; g_j = 0;
   g_items[0] = &g_f[0]; g_items[1] = &g_f[1]; g_items[2] = &g_f[2];
   __CPROVER_assume(cur->refs >= 1 && cur->refs < 2147483647);
   g_refs0 = cur->refs;
@@ -222,6 +248,56 @@ void h_pick(void) {
           "pick_compaction: a picked file other than the first is after the compact pointer and every earlier file is not");
     CHECK(!(size_trig && in_a < in_n && g_slot[0] == (void *)&g_f[0]) || AFTER_PTR(0) || !AFTER_PTR(in_a),
           "pick_compaction: the first file is picked only if it is after the compact pointer or no file is (wrap-around)");
+    CHECK((g_exp_level == 0) == (g_in0 == ST_L0_CLOSURE) && (g_exp_level == 0) == (g_ov_calls == 1) && g_range_calls == g_ov_calls,
+          "pick_compaction: the level-0 overlap closure is computed exactly for level-0 compactions");
+  }
+  CANARY();
+}
+
+/* ======================================================================================================
+ * ver.pick.any - the same obligations with a level of ANY length: the compact-pointer scan is closed by a
+ * loop contract (loops/vpick.json); the comparator is the oracle above
+ * ====================================================================================================== */
+void h_pick_any(void) {
+  ldb_compaction_t *c;
+  int size_trig, seek_trig;
+  IN_INT(in_size_level); IN_INT(in_seek_level); IN_INT(in_has_seek);
+  IN_SIZE(in_n); IN_SIZE(in_cp_size);
+  IN_SIZE(in_j);
+  mk_world(M_SCAN);
+  ASSUME(in_size_level >= 0 && in_size_level < LDB_NUM_LEVELS - 1);
+  ASSUME(in_seek_level >= 0 && in_seek_level < LDB_NUM_LEVELS);
+  ASSUME(in_n >= 1 && in_n <= ((size_t)1 << 40));
+  ASSUME(in_j < LDB_NUM_LEVELS);
+  g_j = in_j; g_n = in_n;
+  g_lvl_items = malloc(in_n * sizeof(void *));
+  ASSUME(g_lvl_items != NULL);
+  g_cur->compaction_level = in_size_level;
+  g_cur->file_to_compact_level = in_seek_level;
+  g_cur->file_to_compact = in_has_seek ? &g_seekf : NULL;
+  g_cur->files[in_size_level].items = g_lvl_items; g_cur->files[in_size_level].length = in_n; g_cur->files[in_size_level].alloc = in_n;
+  g_vs->compact_pointer[in_size_level].size = in_cp_size;
+  size_trig = g_cur->compaction_score >= 1;
+  seek_trig = in_has_seek != 0;
+  g_exp_level = size_trig ? in_size_level : in_seek_level;
+  /* wrap-around / empty compact pointer: the first file; the oracle replaces it by the first file it calls 'after the pointer' */
+  g_exp_file = size_trig ? (const void *)g_lvl_items[0] : (const void *)&g_seekf;
+
+  c = ldb_versions_pick_compaction(g_vs);
+
+  CHECK((c == NULL) == (!size_trig && !seek_trig), "pick_compaction: NULL exactly when neither the size score nor a seek-exhausted file asks for a compaction");
+  if (c == NULL) {
+    CHECK(g_mallocs == 0 && g_cur->refs == g_refs0 && g_setup_calls == 0, "pick_compaction: nothing allocated, pinned or set up when there is nothing to do");
+  } else {
+    CHECK(c == g_c && g_mallocs == 1, "pick_compaction: returns the one compaction object it allocated");
+    CHECK(c->level == (size_trig ? in_size_level : in_seek_level), "pick_compaction: size-triggered compaction (current->compaction_level) is preferred over the seek-triggered one (file_to_compact_level)");
+    CHECK(FRESH_COMPACTION(c, g_exp_level, in_j), "compaction_create: counters zero, inputs[1]/grandparents empty, edit initialised, output size limit from the options");
+    CHECK(c->input_version == g_cur && g_cur->refs == g_refs0 + 1, "pick_compaction: input_version is the current version, referenced exactly once");
+    CHECK(g_setup_calls == 1, "pick_compaction: setup_other_inputs called exactly once (under its K7 precondition)");
+    CHECK(g_slot[0] == g_exp_file, "pick_compaction: the picked file is the first file of the level that the comparator puts after the compact pointer (first file if none / empty pointer), resp. file_to_compact");
+    CHECK(!size_trig || in_cp_size == 0 || g_any_pos || g_calls == in_n, "pick_compaction: wrap-around only after EVERY file of the level was compared with the compact pointer");
+    CHECK(!(size_trig && in_cp_size == 0) || (g_calls == 0 && g_slot[0] == g_lvl_items[0]), "pick_compaction: empty compact pointer: the first file, no comparison");
+    CHECK(size_trig || g_calls == 0, "pick_compaction: a seek-triggered compaction does not scan the level");
     CHECK((g_exp_level == 0) == (g_in0 == ST_L0_CLOSURE) && (g_exp_level == 0) == (g_ov_calls == 1) && g_range_calls == g_ov_calls,
           "pick_compaction: the level-0 overlap closure is computed exactly for level-0 compactions");
   }
